@@ -472,7 +472,12 @@ pub fn gen_stream(rng: &mut Rng, cfg: &GenCfg, tag_prefix: &str) -> Vec<u8> {
         let n = rng.below(300);
         return rng.bytes(n);
     }
-    let nreq = 1 + rng.weighted(&[35, 30, 15, 10, 6, 4]).min(cfg.max_reqs.saturating_sub(1));
+    let mut nreq = 1 + rng.weighted(&[35, 30, 15, 10, 6, 4]).min(cfg.max_reqs.saturating_sub(1));
+    // marathon: a long-lived connection carrying tens to hundreds of pipelined requests (state left
+    // over from request k must not affect request k+n; nothing may drift or accumulate)
+    if cfg.max_reqs >= 6 && rng.chance(1, 150) {
+        nreq = rng.range(40, 400);
+    }
     let corrupt_at = if rng.chance(cfg.corrupt, 1000) { Some(rng.below(nreq)) } else { None };
     let edge_at = if cfg.allow_big && rng.chance(1, 5) { Some(rng.below(nreq)) } else { None };
     let mut s = Vec::new();
